@@ -188,6 +188,9 @@ def classify(hdr):
         g = norm_ws(strip_generics(h))
         g = re.sub(r'\bwhere\b.*$', '', g).strip()
         return 'impl', g[len('impl'):].strip() if g.startswith('impl') else g, hn
+    m = re.match(r'(?:exec|spec|proof)\s+const\s+([A-Za-z_]\w*)', h)
+    if m:
+        return 'vconst', m.group(1), hn
     for kw in ('mod', 'struct', 'enum', 'trait', 'union', 'type', 'static', 'const'):
         m = re.match(r'(?:unsafe\s+)?' + kw + r'\s+(?:mut\s+)?([A-Za-z_]\w*)', h)
         if m:
